@@ -1,6 +1,6 @@
 // f_proxy.cpp — family "proxy": ProxyHandler/ProxySocket between a client on SimTcp and a scripted
 // upstream server on the loopback interface (C12, C13)
-//   case ::= ( reqhead bodysegs connect_after upops refused oracle [meta] )
+//   case ::= ( reqhead bodysegs connect_after upops refused oracle [meta [peer [early]]] )
 //   obs  ::= ( upstream_received downstream_wire downstream_closed )
 #include <QCoreApplication>
 #include <QElapsedTimer>
@@ -55,12 +55,24 @@ static Val run_proxy(const Val &c)
         for (; i < k && i < (long long)segs.size(); ++i) tcp->feed(segs[i].asBytes());
         if (!refused) pumpUntil([&]() { return upRecv.contains("\r\n\r\n"); }, 3000);
         else pumpUntil([&]() { return closed; }, 3000);
+        // a ninth element: that many operations of the upstream script happen now, before the rest of the body arrives (an upstream
+        // that answers before it has read the whole request)
+        size_t early = c.size() > 8 ? size_t(c.at(8).asInt()) : 0, upDone = 0;
+        for (; upDone < early && upDone < c.at(3).l.size() && !refused && upConn; ++upDone) {
+            const Val &op = c.at(3).l[upDone];
+            if (op.at(0).asInt() != 0) break;
+            int before = wire.size();
+            upConn->write(op.at(1).asBytes()); upConn->flush();
+            pumpUntil([&]() { return wire.size() != before || closed; }, 60);
+            pump(3);
+        }
         for (; i < (long long)segs.size(); ++i) { if (guard) tcp->feed(segs[i].asBytes()); pump(2); }
         int expectBody = 0;
         for (auto &sg : segs) expectBody += sg.asBytes().size();
         if (!refused) pumpUntil([&]() { int idx = upRecv.indexOf("\r\n\r\n"); return idx >= 0 && upRecv.size() - idx - 4 >= expectBody; }, 300);
         // the upstream script
-        for (auto &op : c.at(3).l) {
+        for (size_t oi = upDone; oi < c.at(3).l.size(); ++oi) {
+            const Val &op = c.at(3).l[oi];
             if (refused || !upConn) break;
             if (op.at(0).asInt() == 0) {
                 int before = wire.size();
